@@ -81,6 +81,8 @@ impl Template {
         };
 
         // 1st round: parse the string into AST
+        // (a byte order mark at the start of the file is an encoding mark, not template content)
+        ps.consume_str("\u{feff}");
         let mut content = vec![];
         while !ps.ended() {
             Node::parse_vec_node(ps, &mut globals, &mut content);
@@ -2998,7 +3000,7 @@ impl StrName {
                 let next = ps.next()?;
                 if next == '#' {
                     let next = ps.next()?;
-                    if next == 'x' {
+                    if next == 'x' || next == 'X' {
                         // parse `&#x...;`
                         loop {
                             let Some(next) = ps.next() else {
